@@ -38,6 +38,9 @@ func newS3hStackMore(dir, name string) *verifx.Stack {
 	if name == "named" {
 		return newS3hNamed(dir)
 	}
+	if name == "route" { // C14 routing histories: remappable named stores + routing observer (s3hist_routing.go)
+		return newS3hRouteStack(dir)
+	}
 	if a, ok := s3hAliases[name]; ok {
 		name = a
 	}
